@@ -135,6 +135,31 @@ def hexval(c):
     return z3.Or(isd, isl, isu), SymInt.make(z3.ZeroExt(1, z3.Extract(7, 0, val)), 0, 255)
 
 
+def int_dec(s):
+    """int(str) base 10 for texts made of ASCII digits; a character that int() might accept otherwise (sign,
+    whitespace, underscore, non-ASCII digit) is outside the model; any other character -> ValueError"""
+    if not s.cells:
+        raise ValueError("invalid literal for int() with base 10: ''")
+    acc = 0
+    for c in s.cells:
+        if isinstance(c, int):
+            isd = 48 <= c <= 57
+        else:
+            isd = truth(mkbool(z3.And(z3.UGE(c, 48), z3.ULE(c, 57))))
+        if not isd:
+            special = [9, 10, 11, 12, 13, 32, 43, 45, 95]
+            if isinstance(c, int):
+                odd = c in special or c >= 128 or 28 <= c <= 31
+            else:
+                odd = truth(mkbool(z3.Or(*[c == k for k in special], z3.UGE(c, 128), z3.And(z3.UGE(c, 28), z3.ULE(c, 31)))))
+            if odd:
+                raise Unsupported("int() of text with sign/whitespace/underscore/non-ASCII characters")
+            raise ValueError("invalid literal for int() with base 10")
+        d = c - 48 if isinstance(c, int) else SymInt.make(z3.ZeroExt(1, z3.Extract(7, 0, c - 48)), 0, 9)
+        acc = binop("+", binop("*", acc, 10), d)
+    return acc
+
+
 _IntShim_new = symx.IntShim.__new__
 
 
@@ -142,6 +167,8 @@ def int_new(cls, *a):
     if a and isinstance(a[0], SymStr):
         base = a[1] if len(a) > 1 else 10
         s = a[0]
+        if base == 10:
+            return int_dec(s)
         if base != 16:
             raise Unsupported("int(symbolic str, base %r)" % base)
         if not s.cells:
@@ -285,3 +312,63 @@ def int_to_str(v):
 m_str.__symx_model__ = True
 symx.BUILTIN_MODELS["str"] = m_str
 symx.SHIM_TO_BUILTIN[m_str] = str
+
+
+def str_encode(self, encoding="utf-8", errors="strict"):
+    enc = encoding.lower().replace("_", "-")
+    out = []
+    for c in self.cells:
+        if isinstance(c, int):
+            if c < 128 or (enc in ("latin-1", "latin1", "iso-8859-1") and c < 256):
+                out.append(c)
+            elif enc in ("utf-8", "utf8"):
+                out.extend(chr(c).encode("utf-8"))
+            else:
+                raise UnicodeEncodeError(enc, "", 0, 1, "model")
+            continue
+        lim = 256 if enc in ("latin-1", "latin1", "iso-8859-1") else 128
+        if truth(mkbool(z3.ULT(c, lim))):
+            out.append(z3.simplify(z3.Extract(7, 0, c)))
+        elif enc in ("utf-8", "utf8"):
+            raise Unsupported("utf-8 encoding of a symbolic non-ASCII character")
+        else:
+            raise UnicodeEncodeError(enc, "", 0, 1, "model")
+    return SymBytes(out)
+
+
+SymStr.encode = str_encode
+symx.SEQ_METHODS.add("encode")
+symx.SEQ_METHODS.update({"strip", "lstrip", "isdigit", "isalnum", "count", "index", "rfind", "rpartition", "rsplit", "splitlines", "title", "zfill", "format"})
+
+
+def seq_lstrip(self, chars=None):
+    T = type(self)
+    rev = T(self.cells[::-1]).rstrip(chars if chars is None else V_reverse(chars, T))
+    return T(rev.cells[::-1])
+
+
+def V_reverse(chars, T):
+    return T(seq_cells(chars, T)[::-1])
+
+
+def seq_strip(self, chars=None):
+    return seq_lstrip(self.rstrip(chars), chars)
+
+
+SymSeq.lstrip = seq_lstrip
+SymSeq.strip = seq_strip
+
+
+def seq_count(self, sub):
+    oc = seq_cells(sub, type(self))
+    n, i = 0, 0
+    while i + len(oc) <= len(self.cells):
+        if truth(self.match_at(oc, i)):
+            n += 1
+            i += max(1, len(oc))
+        else:
+            i += 1
+    return n
+
+
+SymSeq.count = seq_count
